@@ -54,6 +54,7 @@ def main(tier):
                         "thread clause by non-interference argument, not explored")
     rep.add_units(common.run_units("checks.frames", frames.units(True)))
     n = frames.plan_equivalence(rep, "C19")
+    rep.extra["plan_constructions_scanned"] = frames.plan_construction_frames(rep, "C19")
     thread_standin(rep, tier)
     from checks import history
     n2, f2 = history.writers_history()
